@@ -249,7 +249,7 @@ def shrink(case, bucket, budget):
 def main(tier, seed, t0):
     _replay_pristine()  # main process has not used sievelib yet
     quick = tier == "quick"
-    col = core.run_shards(worker, [(seed * 1000 + 1300 + k, 40 if quick else 800, 25) for k in range(16)])
+    col = core.run_shards(worker, [(seed * 1000 + 1300 + k, 80 if quick else 1500, 25) for k in range(16)])
     need = ["kind:parse-reused", "kind:parse-fresh", "kind:fs"]
     missing = [c for c in need if not col.classes.get(c)]
     if missing:
